@@ -2,7 +2,26 @@
 
 package models
 
-import "sort"
+import (
+	"sort"
+
+	"github.com/prometheus/client_golang/prometheus"
+	dto "github.com/prometheus/client_model/go"
+)
+
+// VerifSessionGauge sums the session_count gauge over its labels.
+func VerifSessionGauge() float64 {
+	ch := make(chan prometheus.Metric, 64)
+	go func() { hagallSessionCount.Collect(ch); close(ch) }()
+	var sum float64
+	for m := range ch {
+		var d dto.Metric
+		if m.Write(&d) == nil && d.GetGauge() != nil {
+			sum += d.GetGauge().GetValue()
+		}
+	}
+	return sum
+}
 
 // Lock-free projections of unexported state for the /verif harness.  They are
 // only called while no handler is running (L1) or while the cooperative
